@@ -749,6 +749,7 @@ fn small_subjects() -> Vec<String> {
 fn run(w: &mut Worker) {
     w.regress::<Case>("hook", check_hook);
     w.regress::<E2e>("e2e", check_e2e);
+    w.regress_fuzz(fuzz_one);
     let maxn = w.tier.pick(4usize, 5);
     let asts = small_asts(maxn);
     let subs = small_subjects();
